@@ -375,6 +375,20 @@ pub fn call_order(block: &syn::Block, names: &[&str]) -> Vec<String> {
         .collect();
     let mut found: Vec<(usize, String)> = vec![];
     for n in names {
+        if let Some(rest) = n.strip_prefix("last:") {
+            // the LAST occurrence of a token sequence (e.g. `last:. await`)
+            let pat: Vec<&str> = rest.split(' ').collect();
+            let mut at = None;
+            for i in 0..toks.len() {
+                if i + pat.len() <= toks.len() && pat.iter().enumerate().all(|(j, p)| toks[i + j] == *p) {
+                    at = Some(i);
+                }
+            }
+            if let Some(i) = at {
+                found.push((i, n.to_string()));
+            }
+            continue;
+        }
         if n.contains(' ') || *n == "while" {
             // a token sequence (e.g. `transfer . delivery_tag = None`) instead of a call
             let pat: Vec<&str> = n.split(' ').collect();
